@@ -199,26 +199,46 @@ def same_events(ctx, rule, instance, fi, got, want, what, skip_args=(), guards=F
     return True
 
 
-def _vacuous(val, e, _memo={}):
+def _vacuous(val, e):
     """An event that mentions a pseudo-element of a domain D does not happen in a scenario where D is empty
-    (the valuation makes `len(D) == 0` true): a loop over an empty sequence has no iterations."""
-    from .termflow import Poly, g_cmp
+    (the valuation makes `len(D) == 0` true): a loop over an empty sequence has no iterations.  Only the parts of
+    the event's terms that are selected in this scenario count (the unselected arm of a conditional value may
+    mention other domains)."""
+    from .termflow import Poly, g_cmp, _is_polykey
 
-    doms = getattr(e, "_elem_doms", None)
-    if doms is None:
-        doms = set()
-        vals = list(e.args) + list(e.kwargs.values()) + ([e.recv] if e.recv is not None else [])
-        for v in vals:
-            try:
-                for a in atoms_of(v, tag="elem"):
-                    if len(a) == 3 and isinstance(a[1], tuple):
-                        doms.add(a[1])
-            except Exception:  # noqa: BLE001
-                pass
-        e._elem_doms = doms
+    doms = set()
+    seen = set()
+
+    def walk(k, depth=0):
+        if not isinstance(k, tuple) or depth > 60 or id(k) in seen:
+            return
+        seen.add(id(k))
+        if k and isinstance(k[0], str):
+            if k[0] == "cond" and len(k) == 2:
+                for g, v in k[1]:
+                    try:
+                        if val.truth(g):
+                            walk(v, depth + 1)
+                            return
+                    except Exception:  # noqa: BLE001
+                        break
+                return
+            if k[0] == "elem" and len(k) == 3 and isinstance(k[1], tuple):
+                doms.add(k[1])
+            for x in k[1:]:
+                walk(x, depth + 1)
+        else:
+            for x in k:
+                walk(x, depth + 1)
+
+    for v in list(e.args) + list(e.kwargs.values()) + ([e.recv] if e.recv is not None else []):
+        try:
+            walk(vkey(v))
+        except Exception:  # noqa: BLE001
+            pass
     for d in doms:
         try:
-            dk = d if (isinstance(d, tuple) and d and d[0] == "poly") else Poly.atom(d).key()
+            dk = d if _is_polykey(d) else Poly.atom(d).key()
             if val.truth(g_cmp("==", Poly.atom(("call", "len", (dk,), ())), Poly.const(0))):
                 return True
         except Exception:  # noqa: BLE001
